@@ -265,6 +265,14 @@ def build_and_check(u: Unit, workdir: str, trace: bool = False, only_props: Opti
     if len(r.obligations) < u.min_obligations:
         r.reason = "vacuity guard: %d obligations < expected minimum %d" % (len(r.obligations), u.min_obligations)
         return r
+    # vacuity guards: obligations tagged [VACUITY] are reachability probes that MUST fail
+    vac = [o for o in r.obligations if "[VACUITY]" in o["description"]]
+    dead = [o for o in vac if o["status"] != "FAILURE"]
+    if dead:
+        r.reason = "vacuity guard: reachability probe not reachable: " + "; ".join(o["description"][:80] for o in dead[:4])
+        return r
+    r.covers = vac
+    r.obligations = [o for o in r.obligations if "[VACUITY]" not in o["description"]]
     nobody = [o for o in r.obligations if "undefined function should be unreachable" in o["description"]
               and o["status"] == "FAILURE"]
     if nobody:
